@@ -15,7 +15,7 @@ import (
 
 func init() {
 	Register(&World{Name: "group", Episodes: true, Props: []string{"C17"}, Concurrent: true, Timed: true, MaxSteps: 8000, Run: groupWorld})
-	ExpectedProbes["group"] = []string{"registration-after-stop", "registration-racing-stop", "trigger-during-run", "trigger-with-slot-full", "periodic-ran", "stop-while-f-running", "parent-cancelled", "do-ran", "periodic-or-trigger-by-timer", "periodic-or-trigger-by-trigger"}
+	ExpectedProbes["group"] = []string{"periodic-interval-not-positive", "registration-after-stop", "registration-racing-stop", "trigger-during-run", "trigger-with-slot-full", "periodic-ran", "stop-while-f-running", "parent-cancelled", "do-ran", "periodic-or-trigger-by-timer", "periodic-or-trigger-by-trigger"}
 }
 
 type groupReg struct {
@@ -42,6 +42,7 @@ type groupReg struct {
 	nestDo         bool // the function registers another one (g.Do) from inside its first run
 	nested         bool // registered from inside a run
 	lastStartByTimer bool
+	deadStarts       int // runs begun with the context already ended
 }
 
 func groupWorld(r *R) {
@@ -76,6 +77,13 @@ func groupWorld(r *R) {
 		}
 		rg.runTime = []time.Duration{0, 5 * time.Millisecond, 30 * time.Millisecond, 120 * time.Millisecond}[r.Choose(4, "runtime")]
 		rg.respect = r.Choose(2, "respect") == 1
+		if rg.kind == 1 && rg.runTime > 0 && !settled && r.Choose(3, "zero-interval") == 2 {
+			// "as often as possible": a Periodic function with no interval at all (or a negative one) runs
+			// back to back - and stops like any other (the runs themselves take simulated time, so the
+			// clock still moves; only in runs that stop at a chosen moment, since no instant is idle)
+			rg.interval, rg.jitter = []time.Duration{0, -50 * time.Millisecond}[r.Choose(2, "zero-interval-kind")], 0
+			r.Probe("periodic-interval-not-positive")
+		}
 		if !settled && r.Choose(2, "late-reg") == 1 {
 			rg.delay = time.Duration(r.Choose(12, "reg-delay")) * 23 * time.Millisecond
 		}
@@ -108,6 +116,14 @@ func groupWorld(r *R) {
 			r.Hist("start", rg.id)
 			if stopRet != 0 {
 				r.Violate("C17", "start-after-stopandwait/"+kindName(rg.kind), "f%d (%s) started (#%d) after StopAndWait had returned (#%d)", rg.id, kindName(rg.kind), s, stopRet)
+			}
+			if ctx.Err() != nil {
+				// the group has been stopped (or its parent context ended): the unchanged library looks
+				// at the context before every call, so one more start can slip through, not fifty
+				if rg.deadStarts++; rg.deadStarts > 50 {
+					r.Violate("C17", "keeps-starting-after-stop/"+kindName(rg.kind), "f%d (%s) has been started %d times with the group's context already ended; StopAndWait cannot return while that goes on", rg.id, kindName(rg.kind), rg.deadStarts)
+					panic(sim.Killed)
+				}
 			}
 			rg.running++
 			if rg.running > 1 {
